@@ -15,7 +15,9 @@
 //!     entry(i) = (t, bytes) (entries carried by an AppendEntries it answered with success, entries it
 //!                           returned from `propose`, entries it replicated as leader)
 //! An entry obligation ends when the node later accepts a conflicting entry at or below that index
-//! from a newer leader (the Raft conflict rule); nothing else ends an obligation.
+//! from a newer leader (the Raft conflict rule), or when a snapshot install replaces the log with
+//! entries that differ from it there (entries the snapshot repeats stay promised at every byte of
+//! the install's own WAL writes); nothing else ends an obligation.
 //! A crash at byte b is the WAL file cut to b bytes. `RaftNode::with_wal` on that image must succeed
 //! and satisfy every obligation stamped <= b. Chains: the real file is cut at b, the real node is
 //! restarted on it, driven further, and all truncations of the grown file are judged again (up to
@@ -23,7 +25,9 @@
 //! Because obligations are stamped with the on-disk length, "answered before the record reached the
 //! file" (ack before write/flush) shows up as a violated image at exactly the ack boundary.
 //!
-//! parts:  main      elections, votes, appends, conflict truncations, leadership, proposals
+//! parts:  main      elections, votes, appends, conflict truncations, leadership, proposals,
+//!                   commitment + log compaction behind a snapshot (finalize_to + tick_async, or
+//!                   create_snapshot + truncate_log), deposition of a leader with a compacted log
 //!         snapshot  the same plus `install_snapshot` (direct and via SnapshotResponse)
 
 use common::*;
@@ -1498,24 +1502,24 @@ fn main() {
         run_case(part, seed, &base, q, &mut total);
     } else if space_ok {
         let n_main = args.by_tier(6_000u64, 400_000u64);
-        let rep = par_cases(args.threads, args.seed, n_main, args.budget(45, 600), |_i, s, r| run_case(Part::Main, s, &base, quick, r));
+        let rep = par_cases(args.threads, args.seed, n_main, args.budget(40, 560), |_i, s, r| run_case(Part::Main, s, &base, quick, r));
         total.count("main_cases", rep.counters.get("cases").copied().unwrap_or(0));
         total.merge(rep);
         let n_snap = args.by_tier(1_200u64, 80_000u64);
-        let rep = par_cases(args.threads, args.seed ^ 0x5A, n_snap, args.budget(15, 180), |_i, s, r| run_case(Part::Snapshot, s, &base, quick, r));
+        let rep = par_cases(args.threads, args.seed ^ 0x5A, n_snap, args.budget(20, 220), |_i, s, r| run_case(Part::Snapshot, s, &base, quick, r));
         total.count("snapshot_cases", rep.counters.get("cases").copied().unwrap_or(0));
         total.merge(rep);
     }
 
     let meta = Meta {
         property: "C10",
-        rule: "A case = one real RaftNode::with_wal driven by a seeded hostile environment for 3-12 protocol steps, then up to 3 times: cut the real WAL file at a chosen byte (60% inside one of the last three records, 15% anywhere, 25% between records), restart the real node on it, drive 2-8 more steps. After every phase every truncation of the (new part of the) WAL file — every byte when the part is <= 1400 (quick) / 3000 (thorough) bytes, otherwise all record/ack boundaries -2..+9 bytes, every byte of the last three records and a seeded sample — is restarted with RaftNode::with_wal and judged against the promise ledger (term, vote of the recovered term, acknowledged entries by position and bytes, log shape at ack boundaries, and a probing RequestVote from another candidate). One evaluation = one phase (one WAL file with its ledger); it is distinct by the hash of the WAL bytes and non-trivial when at least one obligation applied to some judged image and at least one judged image ended inside a record.",
+        rule: "A case = one real RaftNode::with_wal driven by a seeded hostile environment for 3-12 protocol steps (one step may be a whole leadership: win an election, replicate and commit entries, accept more, compact the log behind a snapshot, get deposed by a leader that lacks the uncommitted tail), then up to 3 times: cut the real WAL file at a chosen byte (60% inside one of the last three records, 15% anywhere, 25% between records), restart the real node on it, drive 2-8 more steps. After every phase every truncation of the (new part of the) WAL file — every byte when the part is <= 1400 (quick) / 3000 (thorough) bytes, otherwise all record/ack boundaries -2..+9 bytes, every byte of the last three records and a seeded sample — is restarted with RaftNode::with_wal and judged against the promise ledger (term, vote of the recovered term, acknowledged entries by position and bytes, log shape at ack boundaries, and a probing RequestVote from another candidate). One evaluation = one phase (one WAL file with its ledger); it is distinct by the hash of the WAL bytes and non-trivial when at least one obligation applied to some judged image and at least one judged image ended inside a record.",
         assumptions: vec![
             "crashes are process crashes: the file keeps a prefix of what had reached it (write(2) level); bytes still in a user-space buffer when a call returned are lost — that is how 'answered before the record reached the file' is observed; fsync itself is not observable here".into(),
-            "obligations come only from what the node emitted: replies of handle_message, messages it put on the transport, Ok results of propose; an entry obligation ends only when the node later answers success to an AppendEntries carrying a different-term entry at or below that index, or (snapshot part) when a snapshot install replaces the log".into(),
+            "obligations come only from what the node emitted: replies of handle_message, messages it put on the transport, Ok results of propose; an entry obligation ends only when the node later answers success to an AppendEntries carrying a different-term entry at or below that index, or (snapshot part) when a snapshot install replaces the log with different entries from that index on (entries the snapshot repeats stay promised during the install's own WAL writes) or cuts the log behind the snapshot".into(),
             "entries are looked up by position (index i at position i-1), which is how a restarted node (no compaction offset) addresses its log".into(),
-            "beyond the letter of the statement: at an ack boundary (no write in flight) the restarted node must report the same (log_length, last_log_index, last_log_term) the live node reported there — a truncated suffix must not reappear; signature log-differs-at-ack-boundary; not applied behind a snapshot install".into(),
-            "the environment is a well-formed Raft world: one leader per term, leader logs are prefix-consistent, entry content is a function of (index, term); terms in which n0 campaigned are never given to another leader".into(),
+            "beyond the letter of the statement: at an ack boundary (no write in flight) the restarted node must report the same (log_length, last_log_index, last_log_term) the live node reported there — a truncated suffix must not reappear; signature log-differs-at-ack-boundary; for a live node that compacted its log the logical length (log_length + last_log_index - log_length offset) is compared".into(),
+            "the environment is a well-formed Raft world: one leader per term, leader logs are prefix-consistent, entry content is a function of (index, term); terms in which n0 campaigned are never given to another leader; whatever the live node regards as committed (commit_index: leader_commit of an accepted AppendEntries — never beyond the last entry that message establishes —, own majority acknowledgements, an installed snapshot) is held by every later leader; only committed entries are finalized and compacted; a leader is acknowledged by followers only while no later-term leader exists".into(),
             "signature = <what>:<context>; context append-after-torn-tail = the image contains records the node appended behind a partial record left by an earlier crash of the chain; after-snapshot-install = the image contains records written after a snapshot install; else clean-wal".into(),
         ],
         floors: if args.replay.is_some() {
@@ -1524,21 +1528,24 @@ fn main() {
             vec![
                 ("images_judged", 100_000),
                 ("images_inside_a_record", 80_000),
-                ("phases_judged", 350),
-                ("chain_restarts", 250),
-                ("crashes_inside_a_record", 150),
-                ("chains_with_2_crashes_completed", 20),
+                ("phases_judged", 250),
+                ("chain_restarts", 150),
+                ("crashes_inside_a_record", 100),
+                ("chains_with_2_crashes_completed", 15),
                 ("chains_with_3_crashes_completed", 5),
-                ("votes_granted", 300),
+                ("votes_granted", 200),
                 ("vote_obligations_checked", 20_000),
                 ("entry_obligations_checked", 100_000),
-                ("term_obligations_checked", 100_000),
-                ("conflict_truncations", 100),
-                ("proposals_accepted", 30),
-                ("elections_started", 250),
+                ("term_obligations_checked", 50_000),
+                ("conflict_truncations", 60),
+                ("proposals_accepted", 100),
+                ("elections_started", 200),
                 ("vote_probes", 20_000),
                 ("ack_boundary_shape_checks", 1_500),
                 ("snapshots_installed", 30),
+                ("snapshot_installs_repeating_held_entries", 20),
+                ("log_compactions", 40),
+                ("conflict_truncations_on_a_compacted_log", 8),
             ]
         },
         exhaustive: false,
